@@ -199,7 +199,12 @@ def main(mod):
         caps = world.probe_capabilities()
         if not all(caps.values()):
             raise HarnessError("scratch filesystem lacks a capability the monitors need: %s" % caps)
-        selfcheck = mod.selfcheck(a.tier, seed) if hasattr(mod, "selfcheck") and not a.no_selfcheck else None
+        selfcheck, selfcheck_err = None, None
+        if hasattr(mod, "selfcheck") and not a.no_selfcheck:
+            try:
+                selfcheck = mod.selfcheck(a.tier, seed)
+            except HarnessError as e:
+                selfcheck_err = e  # decided below: a violation found by the check itself wins
         cases = mod.gen_cases(seed, a.tier, a.scale)
         log("%d cases, %d jobs" % (len(cases), sum(len(c["jobs"]) for c in cases)))
         results = orch.run_cases(cases, tag="main")
@@ -225,6 +230,13 @@ def main(mod):
             why = next((f.get("detail") for c in cases for f in mod.judge(c, results[c["id"]]) if f["class"] == "discard"), None)
             raise HarnessError("%d of %d cases could not be evaluated (their valid-by-construction inputs do not build even in a clean "
                                "directory), so this run decides nothing; first reason: %s" % (discarded, len(cases), json.dumps(why)[:1500]))
+        if selfcheck_err is not None:
+            if not violations:
+                raise selfcheck_err
+            # the stub and the real ninja part ways on this tree (a rule's command line no longer has the shape the outside
+            # fault devices recognise, say): what the check found stands, the disagreement is reported next to it
+            selfcheck = {"error": str(selfcheck_err)[:300]}
+            print("note: %s" % str(selfcheck_err)[:300])
         try:
             det = determinism_selftest(mod, cases, results, 8 if a.tier == "quick" else 48)
         except HarnessError as e:
